@@ -312,4 +312,193 @@ theorem roundMag_correct (f : Fmt) (n d : Nat) (hn : n ≠ 0) (hd : d ≠ 0) :
     have := (rne_bounds (scaled n d (roundExp f n d)).1 (scaled n d (roundExp f n d)).2).1
     omega
 
+
+
+theorem signBit_eq (f : Fmt) : f.signBit = 2 ^ f.eb * 2 ^ f.mb := by
+  unfold Fmt.signBit; rw [Nat.pow_add, Nat.mul_comm]
+
+/-- setting the sign bit of a magnitude below it changes nothing but the sign -/
+theorem decode_withSign (f : Fmt) (neg : Bool) (x : Nat) (hx : x < f.signBit) :
+    decode f (withSign f neg x) =
+      (match decode f x with
+       | .nan => .nan
+       | .inf _ => .inf neg
+       | .fin _ m e => .fin neg m e) := by
+  have hpos : 0 < 2 ^ f.mb := Nat.pos_of_ne_zero (by simp)
+  have hneg0 : isNeg f x = false := isNeg_small f x hx
+  cases neg with
+  | false =>
+    simp only [withSign, Bool.false_eq_true, if_false]
+    unfold decode
+    simp only [hneg0]
+    split <;> (try split) <;> rfl
+  | true =>
+    simp only [withSign, if_true]
+    have h1 : (x + f.signBit) / 2 ^ f.mb % 2 ^ f.eb = x / 2 ^ f.mb % 2 ^ f.eb := by
+      rw [signBit_eq, Nat.add_mul_div_right _ _ hpos, Nat.add_mod_right]
+    have h2 : (x + f.signBit) % 2 ^ f.mb = x % 2 ^ f.mb := by
+      rw [signBit_eq, Nat.add_mul_mod_self_right]
+    have h3 : isNeg f (x + f.signBit) = true := by
+      unfold isNeg
+      have hS : 0 < f.signBit := by unfold Fmt.signBit; exact Nat.pos_of_ne_zero (by simp)
+      rw [Nat.add_div_right _ hS, Nat.div_eq_of_lt hx]
+      rfl
+    unfold decode
+    simp only [h1, h2, h3, hneg0]
+    split <;> (try split) <;> rfl
+
+/-- the carry of the rounding into the next binade decodes to the first value of that binade -/
+theorem decode_encode_carry (f : Fmt) (k : Nat) (hk : k + 2 < f.emaxField) :
+    decode f (k * 2 ^ f.mb + 2 * 2 ^ f.mb) = .fin false (2 ^ f.mb) ((k : Int) + 1 + f.emin) := by
+  have := decode_encode_normal f (k + 1) (2 ^ f.mb) (Nat.le_refl _) (by have : 0 < 2 ^ f.mb := Nat.pos_of_ne_zero (by simp); omega) (by omega)
+  have e : (k + 1) * 2 ^ f.mb + 2 ^ f.mb = k * 2 ^ f.mb + 2 * 2 ^ f.mb := by ring
+  rw [e] at this
+  rw [this]
+  congr 1
+
+
+theorem infBits_lt_signBit (f : Fmt) : f.infBits < f.signBit := by
+  rw [signBit_eq]
+  unfold Fmt.infBits Fmt.emaxField
+  have h1 : 0 < 2 ^ f.eb := Nat.pos_of_ne_zero (by simp)
+  have h2 : 0 < 2 ^ f.mb := Nat.pos_of_ne_zero (by simp)
+  exact Nat.mul_lt_mul_of_pos_right (by omega) h2
+
+theorem decode_infBits (f : Fmt) : decode f f.infBits = .inf false := by
+  have h2 : 0 < 2 ^ f.mb := Nat.pos_of_ne_zero (by simp)
+  have h1 : 0 < 2 ^ f.eb := Nat.pos_of_ne_zero (by simp)
+  have hneg := isNeg_small f f.infBits (infBits_lt_signBit f)
+  unfold decode
+  have e1 : f.infBits / 2 ^ f.mb % 2 ^ f.eb = f.emaxField := by
+    unfold Fmt.infBits
+    rw [Nat.mul_div_cancel _ h2]
+    unfold Fmt.emaxField
+    exact Nat.mod_eq_of_lt (by omega)
+  have e2 : f.infBits % 2 ^ f.mb = 0 := by unfold Fmt.infBits; exact Nat.mul_mod_left _ _
+  simp only [e1, e2, hneg, if_true]
+
+/-- **`ofRat` is the correctly rounded float**: for `n/d > 0` the result of `ofRat f neg n d` is, with `k`, `q` the
+    exponent index and the round-to-nearest-even integer of `roundMag_correct`: ±Inf when the rounded magnitude
+    reaches the all-ones exponent (overflow), otherwise the float `± q · 2^(k + emin)` (written `2^mb · 2^(k+1+emin)`
+    when the rounding carried) -/
+theorem ofRat_value (f : Fmt) (heb : 1 ≤ f.eb) (neg : Bool) (n d : Nat) (hn : n ≠ 0) (hd : d ≠ 0) :
+    ∃ (k q : Nat), roundMag f n d = k * 2 ^ f.mb + q ∧
+      q = rne (scaled n d ((k : Int) + f.emin)).1 (scaled n d ((k : Int) + f.emin)).2 ∧
+      ((f.infBits ≤ k * 2 ^ f.mb + q ∧ decode f (ofRat f neg n d) = .inf neg) ∨
+       (k * 2 ^ f.mb + q < f.infBits ∧ q < 2 * 2 ^ f.mb ∧ (k ≠ 0 → 2 ^ f.mb ≤ q) ∧
+          decode f (ofRat f neg n d) = .fin neg q ((k : Int) + f.emin)) ∨
+       (k * 2 ^ f.mb + q < f.infBits ∧ q = 2 * 2 ^ f.mb ∧
+          decode f (ofRat f neg n d) = .fin neg (2 ^ f.mb) ((k : Int) + 1 + f.emin))) := by
+  obtain ⟨k, q, h1, h2, h3, h4⟩ := roundMag_correct f n d hn hd
+  refine ⟨k, q, h1, h2, ?_⟩
+  have hM : 0 < 2 ^ f.mb := Nat.pos_of_ne_zero (by simp)
+  have hinf := infBits_lt_signBit f
+  have h3' : q ≤ 2 * 2 ^ f.mb := by rw [Nat.pow_succ] at h3; omega
+  unfold ofRat
+  rw [h1]
+  by_cases hov : f.infBits ≤ k * 2 ^ f.mb + q
+  · left
+    refine ⟨hov, ?_⟩
+    rw [Nat.min_eq_right hov, decode_withSign f neg _ hinf, decode_infBits]
+  · have hlt : k * 2 ^ f.mb + q < f.infBits := Nat.lt_of_not_ge hov
+    rw [Nat.min_eq_left (Nat.le_of_lt hlt), decode_withSign f neg _ (Nat.lt_trans hlt hinf)]
+    have hE : f.infBits = f.emaxField * 2 ^ f.mb := rfl
+    by_cases hc : q = 2 * 2 ^ f.mb
+    · right; right
+      refine ⟨hlt, hc, ?_⟩
+      have hk : k + 2 < f.emaxField := by
+        rw [hE, hc] at hlt
+        have : (k + 2) * 2 ^ f.mb < f.emaxField * 2 ^ f.mb := by
+          have : (k + 2) * 2 ^ f.mb = k * 2 ^ f.mb + 2 * 2 ^ f.mb := by ring
+          omega
+        exact Nat.lt_of_mul_lt_mul_right this
+      rw [hc, decode_encode_carry f k hk]
+    · right; left
+      have hq : q < 2 * 2 ^ f.mb := by omega
+      refine ⟨hlt, hq, h4, ?_⟩
+      by_cases hk0 : k = 0
+      · subst hk0
+        by_cases hsub : q < 2 ^ f.mb
+        · simp only [Nat.zero_mul, Nat.zero_add, decode_encode_subnormal f q hsub heb]
+          simp
+        · have hk : 0 + 1 < f.emaxField := by
+            rw [hE] at hlt
+            have : 1 * 2 ^ f.mb < f.emaxField * 2 ^ f.mb := by omega
+            exact Nat.lt_of_mul_lt_mul_right this
+          rw [decode_encode_normal f 0 q (by omega) hq hk]
+      · have hge := h4 hk0
+        have hk : k + 1 < f.emaxField := by
+          rw [hE] at hlt
+          have : (k + 1) * 2 ^ f.mb < f.emaxField * 2 ^ f.mb := by
+            have : (k + 1) * 2 ^ f.mb = k * 2 ^ f.mb + 2 ^ f.mb := by ring
+            omega
+          exact Nat.lt_of_mul_lt_mul_right this
+        rw [decode_encode_normal f k q hge hq hk]
+
+
+
+/-- `ofScaled` hands `roundMag` the exact rational `n · 2^x` -/
+theorem ofScaled_eq (f : Fmt) (neg : Bool) (n : Nat) (x : Int) :
+    ∃ N D : Nat, D ≠ 0 ∧ ofScaled f neg n x = ofRat f neg N D ∧
+      N * 2 ^ (-x).toNat = n * 2 ^ x.toNat * D ∧ (n ≠ 0 → N ≠ 0) := by
+  unfold ofScaled
+  split
+  · rename_i h
+    have h0 : (-x).toNat = 0 := by omega
+    exact ⟨n * 2 ^ x.toNat, 1, by omega, rfl, by simp [h0], fun hn => Nat.mul_ne_zero hn (by simp)⟩
+  · rename_i h
+    have h0 : x.toNat = 0 := by omega
+    exact ⟨n, 2 ^ (-x).toNat, by simp, rfl, by simp [h0], fun hn => hn⟩
+
+/-- **multiplication is exact-then-round**: for finite operands `± m·2^e`, `± k·2^g` the product is the signed zero
+    `(s ≠ t) 0` when a factor is zero, and otherwise `ofRat` of the EXACT product `m·k · 2^(e+g)` with the sign `s ≠ t` -/
+theorem mul_exact_then_round (f : Fmt) (a b : Nat) (s t : Bool) (m k : Nat) (e g : Int)
+    (ha : decode f a = .fin s m e) (hb : decode f b = .fin t k g) :
+    (m * k = 0 → mul f a b = withSign f (s != t) 0) ∧
+    (m * k ≠ 0 → ∃ N D : Nat, D ≠ 0 ∧ N ≠ 0 ∧ mul f a b = ofRat f (s != t) N D ∧
+      N * 2 ^ (-(e + g)).toNat = m * k * 2 ^ (e + g).toNat * D) := by
+  constructor
+  · intro h; simp [mul, ha, hb, h]
+  · intro h
+    obtain ⟨N, D, hD, hof, hex, hN⟩ := ofScaled_eq f (s != t) (m * k) (e + g)
+    exact ⟨N, D, hD, hN h, by simp [mul, ha, hb, h, hof], hex⟩
+
+/-- **addition is exact-then-round**: with `x = min e g` the sum of `± m·2^e` and `± k·2^g` is the integer
+    `S = ± m·2^(e-x) ± k·2^(g-x)` in units of `2^x` (exact: both shifts are by non-negative amounts); the result is the
+    zero `(s ∧ t) 0` when `S = 0` (−0 only for (−0) + (−0), as IEEE-754 prescribes for round-to-nearest) and otherwise
+    `ofRat` of the EXACT `|S| · 2^x` with the sign of `S` -/
+theorem add_exact_then_round (f : Fmt) (a b : Nat) (s t : Bool) (m k : Nat) (e g : Int)
+    (ha : decode f a = .fin s m e) (hb : decode f b = .fin t k g) :
+    ∃ (x : Int) (S : Int), x ≤ e ∧ x ≤ g ∧ (x = e ∨ x = g) ∧
+      S = sgn s (m * 2 ^ (e - x).toNat) + sgn t (k * 2 ^ (g - x).toNat) ∧
+      (S = 0 → add f a b = withSign f (s && t) 0) ∧
+      (S ≠ 0 → ∃ N D : Nat, D ≠ 0 ∧ N ≠ 0 ∧ add f a b = ofRat f (decide (S < 0)) N D ∧
+        N * 2 ^ (-x).toNat = S.natAbs * 2 ^ x.toNat * D) := by
+  refine ⟨if e ≤ g then e else g, _, by split <;> omega, by split <;> omega, by split <;> simp, rfl, ?_, ?_⟩
+  · intro h
+    simp only [add, ha, hb]
+    simp only [h, if_true]
+  · intro h
+    obtain ⟨N, D, hD, hof, hex, hN⟩ := ofScaled_eq f (decide
+      (sgn s (m * 2 ^ (e - if e ≤ g then e else g).toNat) + sgn t (k * 2 ^ (g - if e ≤ g then e else g).toNat) < 0))
+      (sgn s (m * 2 ^ (e - if e ≤ g then e else g).toNat) + sgn t (k * 2 ^ (g - if e ≤ g then e else g).toNat)).natAbs
+      (if e ≤ g then e else g)
+    refine ⟨N, D, hD, hN (by omega), ?_, hex⟩
+    simp only [add, ha, hb]
+    simp only [h, if_false, hof]
+
+/-- **division is exact-then-round**: for finite `± m·2^e` and non-zero `± k·2^g` with `m ≠ 0` the quotient is `ofRat`
+    of the EXACT `(m·2^e) / (k·2^g)` with the sign `s ≠ t` -/
+theorem div_exact_then_round (f : Fmt) (a b : Nat) (s t : Bool) (m k : Nat) (e g : Int)
+    (ha : decode f a = .fin s m e) (hb : decode f b = .fin t k g) (hk : k ≠ 0) (hm : m ≠ 0) :
+    ∃ N D : Nat, D ≠ 0 ∧ N ≠ 0 ∧ div f a b = ofRat f (s != t) N D ∧
+      N * k * 2 ^ (g - e).toNat = m * 2 ^ (e - g).toNat * D := by
+  by_cases h : g ≤ e
+  · have h0 : (g - e).toNat = 0 := by omega
+    exact ⟨m * 2 ^ (e - g).toNat, k, hk, Nat.mul_ne_zero hm (by simp), by simp [div, ha, hb, hk, hm, h],
+      by simp [h0]⟩
+  · have h0 : (e - g).toNat = 0 := by omega
+    refine ⟨m, k * 2 ^ (g - e).toNat, Nat.mul_ne_zero hk (by simp), hm, by simp [div, ha, hb, hk, hm, h], ?_⟩
+    simp [h0, Nat.mul_assoc]
+
 end SoftFloat
